@@ -6,7 +6,7 @@ from fractions import Fraction
 import z3
 
 from .source import ClassInfo, ModuleInfo
-from .engine import (Obj, Func, BoundMethod, Builtin, Namespace, GenVal, SetVal, FmtStr, NDArr, SymSeq, StarSeq,
+from .engine import (Obj, Func, BoundMethod, Builtin, Namespace, GenVal, SetVal, FmtStr, NDArr, SymSeq, StarSeq, NpScalar, unwrap,
                      Unsupported, PyExc, NotImplementedVal, BUILTIN_CLASSES, is_z3, z3_of, num_pair, is_number)
 
 
@@ -16,6 +16,8 @@ def isstr(v):
 
 def type_of(I, v):
     T = I.world.types
+    if isinstance(v, NpScalar):
+        return I.world.extern('numpy').members['float64_type']
     if isinstance(v, Obj):
         return v.cls
     if isinstance(v, bool) or (is_z3(v) and z3.is_bool(v)):
@@ -43,6 +45,13 @@ def type_of(I, v):
 
 def isinstance_(I, v, t):
     from .world import PyType
+    if isinstance(v, NpScalar):
+        # np.float64 subclasses float
+        if isinstance(t, tuple):
+            return any(isinstance_(I, v, x) for x in t)
+        if isinstance(t, PyType):
+            return t.name in ('float', 'object')
+        return getattr(t, 'name', None) in ('float64', 'number', 'floating', 'generic')
     if isinstance(t, tuple):
         return any(isinstance_(I, v, x) for x in t)
     if isinstance(t, PyType):
@@ -292,6 +301,8 @@ def b_range(I, args, kw):
 
 def b_abs(I, args, kw):
     v, = args
+    if isinstance(v, NpScalar):
+        return NpScalar(b_abs(I, [v.v], {}))
     if isinstance(v, Obj):
         m = I.world.find_method(v.cls, '__abs__')
         if m is None:
@@ -330,6 +341,8 @@ def b_str(I, args, kw):
 
 def b_repr(I, args, kw):
     v = args[0]
+    if isinstance(v, NpScalar):
+        return FmtStr([('repr', v)])
     if isinstance(v, (str, int, float, bool, type(None))):
         return repr(v)
     return FmtStr([('repr', v)])
@@ -343,7 +356,7 @@ def str_is_decimal_int(I, s):
 
 
 def b_int(I, args, kw):
-    v = args[0] if args else 0
+    v = unwrap(args[0]) if args else 0
     if isinstance(v, bool):
         return int(v)
     if isinstance(v, int):
@@ -370,7 +383,7 @@ def b_int(I, args, kw):
 
 
 def b_float(I, args, kw):
-    v = args[0] if args else 0.0
+    v = unwrap(args[0]) if args else 0.0
     if isinstance(v, (bool, int, float)):
         return float(v)
     if isinstance(v, str):
